@@ -92,6 +92,59 @@ def distinct (l : List (P2 α)) : Bool := allPairs (fun p q => !ptEq p q) l
 /-- a simple polygon: at least three pairwise distinct vertices whose edges meet only where they must -/
 def simple (l : List (P2 α)) : Bool := decide (3 ≤ l.length) && distinct l && edgesOK l
 
+/-! ### the meaning of "simple", with indices and points (independent of `edgeOK` / `cycEdges`)
+
+`SimplePolygon l` is the text-book definition, written with vertex indices modulo `n` and with POINTS of the
+plane (existentials over segment parameters) — no orientation tests, no `foldBack`, no list of edges:
+  * at least three vertices, pairwise different;
+  * two edges that are not neighbours in the cycle have no common point;
+  * two neighbouring edges have exactly their shared vertex in common.
+`Props/C15.lean` proves `Spec.simple l = true ↔ SimplePolygon l` over ℝ for every list. -/
+
+/-- `x` lies on the closed segment `ab`: `x = a + s (b − a)` for some `s ∈ [0,1]` -/
+def OnSegProp (a b x : P2 α) : Prop :=
+  ∃ s : α, lit 0 ≤ s ∧ s ≤ lit 1 ∧ x.x = a.x + s * (b.x - a.x) ∧ x.y = a.y + s * (b.y - a.y)
+
+/-- vertex `i` of the closed cycle, indices taken modulo the length -/
+def vtx (l : List (P2 α)) (i : Nat) : P2 α := l.getD (i % l.length) ⟨lit 0, lit 0⟩
+
+/-- the edges `i` and `j` (`i < j < n`) are neighbours in the cycle -/
+def cycAdjacent (n i j : Nat) : Prop := j = i + 1 ∨ (i = 0 ∧ j + 1 = n)
+
+def SimplePolygon (l : List (P2 α)) : Prop :=
+  3 ≤ l.length ∧
+  (∀ i j, i < j → j < l.length → vtx l i ≠ vtx l j) ∧
+  (∀ i j, i < j → j < l.length → ¬ cycAdjacent l.length i j →
+      ¬ ∃ x, OnSegProp (vtx l i) (vtx l (i + 1)) x ∧ OnSegProp (vtx l j) (vtx l (j + 1)) x) ∧
+  (∀ i, i < l.length → ∀ x, OnSegProp (vtx l i) (vtx l (i + 1)) x →
+      OnSegProp (vtx l (i + 1)) (vtx l (i + 2)) x → x = vtx l (i + 1))
+
+/-! ### "turns the same way at every vertex" (local convexity) — NOT sufficient for simplicity
+
+The cross product of consecutive edges `(b − a) × (c − b)` equals `orient a b c`. A cycle all of whose turns have
+the same strict sign is locally convex; it is simple only if its turning number is 1: the star polygons `{n/k}`
+(`1 < k < n−1`) of points in convex position turn the same way everywhere and cross themselves
+(`Props/C15.lean`: `locally_convex_implies_simple_fails`, `star_polygon_not_simple`). -/
+
+/-- consecutive triples of an open path -/
+def path3 {β : Type} : List β → List (β × β × β)
+  | a :: b :: c :: l => (a, b, c) :: path3 (b :: c :: l)
+  | _ => []
+
+/-- the corners `(p_{i-1}, p_i, p_{i+1})` of the closed cycle -/
+def cycCorners {β : Type} : List β → List (β × β × β)
+  | a :: b :: t => path3 (a :: b :: (t ++ [a, b]))
+  | _ => []
+
+/-- every turn of the closed cycle is strictly to the left, or every turn strictly to the right -/
+def sameTurns (l : List (P2 α)) : Bool :=
+  (cycCorners l).all (fun t => decide (lit 0 < orient t.1 t.2.1 t.2.2)) ||
+  (cycCorners l).all (fun t => decide (orient t.1 t.2.1 t.2.2 < lit 0))
+
+/-- the star order `{n/k}`: the points visited every `k`-th -/
+def starOrder {β : Type} (pts : List β) (k : Nat) : List β :=
+  (List.range pts.length).filterMap fun i => pts[(i * k) % pts.length]?
+
 /-! ### convex position (2-D) -/
 
 /-- `p` in the closed convex hull of `a b c` (degenerate triangles = segments/points allowed) -/
@@ -131,6 +184,13 @@ def v3Eq (u v : V3 α) : Bool := Scalar.eqb u.x v.x && Scalar.eqb u.y v.y && Sca
 def ccwConvex (n : V3 α) (verts : List (V3 α)) : Bool :=
   decide (3 ≤ verts.length) &&
   (cycEdges verts).all fun e => verts.all fun r => v3Eq r e.1 || v3Eq r e.2 || leftOf n e.1 e.2 r
+
+/-- the same in the plane: every vertex other than the edge's end points lies strictly to the left of every directed
+edge of the closed cycle (a strictly convex polygon listed counter-clockwise). `Props/C15.lean` proves that such a
+cycle of pairwise different vertices is SIMPLE (`ccw_convex_is_simple`) — the true half of "convex ⇒ simple". -/
+def ccwConvex2 (l : List (P2 α)) : Bool :=
+  decide (3 ≤ l.length) &&
+  (cycEdges l).all fun e => l.all fun r => ptEq r e.1 || ptEq r e.2 || decide (lit 0 < orient e.1 e.2 r)
 
 end Spec
 end C15
